@@ -257,13 +257,13 @@ func (r *Report) Finish(c *Ctx, known *KnownFindings, verifDir, tier string, see
 		"rule": "obligations are (rule, resolved construct) pairs enumerated from /repo's type-checked syntax and go/ssa IR on this run; " +
 			"an obligation is non-trivial when discharging it needed a path, dominance, provenance, ownership, lock or table argument " +
 			"(not mere existence of the construct); distinct = distinct (rule, construct) keys",
-		"rules":          ruleDoc,
-		"samples":        samples,
-		"analysed":       r.Analysed,
-		"not_decided":    r.NotDecided,
-		"information":    infos,
-		"exhaustive":     true,
-		"checker_cmd":    fmt.Sprintf("./check %s %s", r.Prop, tier),
+		"rules":           ruleDoc,
+		"samples":         samples,
+		"analysed":        r.Analysed,
+		"not_decided":     r.NotDecided,
+		"information":     infos,
+		"exhaustive":      true,
+		"checker_cmd":     fmt.Sprintf("./check %s %s", r.Prop, tier),
 		"all_obligations": r.Obls,
 	}
 	for k, v := range r.Extra {
